@@ -28,7 +28,7 @@ var (
 
 var c15Inspecting = []string{"generate", "generate-stdin", "generate-missing", "compare", "compare-all", "compare-all-github", "compare-github", "format-check", "format-check-all", "format-check-all-github",
 	"renumber-check", "renumber-check-all", "renumber-check-all-github", "version", "completion-bash", "completion-zsh", "completion-fish", "completion-powershell", "help", "regex-help", "copyright-noversion", "copyright-badversion", "update-badarg", "format-missing",
-	"format-check-missing-rule", "format-check-missing-chain", "format-check-missing-include", "renumber-decoy-orig", "renumber-decoy-txt", "renumber-decoy-readme", "renumber-check-decoy", "compare-missing", "update-missing-assembly"}
+	"format-check-missing-rule", "format-check-missing-chain", "format-check-missing-include", "format-check-lint", "format-check-lint-all", "copyright-dir-outside-any-root", "renumber-all-dir-outside-any-root", "renumber-dir-outside-any-root", "renumber-decoy-orig", "renumber-decoy-txt", "renumber-decoy-readme", "renumber-check-decoy", "compare-missing", "update-missing-assembly"}
 var c15Rewriting = []string{"format", "format-include", "format-include-cwd-elsewhere", "format-include-cwd-rules", "format-rule-cwd-elsewhere", "format-all", "update", "update-all", "renumber", "renumber-all", "copyright", "update-decoy-sorts-first", "update-all-decoy-sorts-first"}
 
 func c15Check(env *core.Env, cc core.Case) core.Verdict {
@@ -81,7 +81,7 @@ func c15Check(env *core.Env, cc core.Case) core.Verdict {
 	var args []string
 	var stdin []byte
 	allowed := func(rel string) bool { return false }
-	cwd, dirArg := root, ""
+	cwd, dirArg, plainDir := root, "", ""
 	switch c.Cmd {
 	case "generate":
 		inspecting, args = true, []string{"regex", "generate", t0.Key}
@@ -103,6 +103,34 @@ func c15Check(env *core.Env, cc core.Case) core.Verdict {
 		inspecting, args = true, []string{"regex", "format", "--check", "--all"}
 	case "format-check-all-github":
 		inspecting, args = true, []string{"-o", "github", "regex", "format", "-c", "-a"}
+	case "format-check-lint", "format-check-lint-all":
+		// an unformatted file with the i flag and an upper-case letter in a class: --check reports it, and only reports it
+		if err := (sut.Tree{"regex-assembly/" + t0.Key + ".ra": "##!+ i\n     foo[Bb]ar\n   baz\n"}).Write(root); err != nil {
+			return core.Incon("cannot write: %v", err)
+		}
+		inspecting, args = true, []string{"regex", "format", "--check", t0.Key}
+		if c.Cmd == "format-check-lint-all" {
+			args = []string{"-o", "github", "regex", "format", "-c", "--all"}
+		}
+	case "copyright-dir-outside-any-root", "renumber-all-dir-outside-any-root", "renumber-dir-outside-any-root":
+		// -d names an existing directory that is not inside any CRS root: there is nothing to work on
+		// (the directory lies in a sandbox of its own: the one of this case has something that looks like a root above the root)
+		plainDir = env.TempDir()
+		defer os.RemoveAll(plainDir)
+		plain := sut.Tree{"project/rules/REQUEST-901-X.conf": "# OWASP CRS ver.1.0.0\n", "project/crs-setup.conf.example": "# OWASP CRS ver.1.0.0\n",
+			"project/tests/regression/tests/X/920100.yaml": "  - test_id: 9\n  - test_id: 4\n\n\n"}
+		if err := plain.Write(plainDir); err != nil {
+			return core.Incon("cannot write: %v", err)
+		}
+		dirArg = filepath.Join(plainDir, "project")
+		switch c.Cmd {
+		case "copyright-dir-outside-any-root":
+			inspecting, args = true, []string{"chore", "update-copyright", "-v", "4.9.1", "-y", "2033"}
+		case "renumber-all-dir-outside-any-root":
+			inspecting, args = true, []string{"util", "renumber-tests", "--all"}
+		default:
+			inspecting, args = true, []string{"util", "renumber-tests", "920100"}
+		}
 	case "format-missing":
 		inspecting, args = true, []string{"regex", "format", "nosuchinclude"}
 	case "format-check-missing-rule":
@@ -224,6 +252,10 @@ func c15Check(env *core.Env, cc core.Case) core.Verdict {
 	}
 	_ = (sut.Tree{"../gh-summary.md": "# summary\n"}).Write(root)
 	before := sut.Snap(sandbox)
+	var plainBefore sut.Snapshot
+	if plainDir != "" {
+		plainBefore = sut.Snap(plainDir)
+	}
 	logf := filepath.Join(sandbox, "strace.log")
 	if dirArg != "" {
 		dir = dirArg
@@ -252,6 +284,11 @@ func c15Check(env *core.Env, cc core.Case) core.Verdict {
 		return core.Viol("crash:"+c.Cmd, "%v crashed: %s", args, describe(r))
 	}
 	after := sut.Snap(sandbox)
+	if plainDir != "" {
+		if d := sut.Diff(plainBefore, sut.Snap(plainDir)); len(d) > 0 {
+			return core.Viol("writes-without-a-root:"+c.Cmd, "%v with -d at a directory that lies in no CRS root changed %v (exit %d)", args, d, r.Exit)
+		}
+	}
 	v := core.Verdict{Status: core.Held, Nontrivial: true, Features: []string{"cmd:" + c.Cmd, "dir:" + c.DirAt}, Counts: map[string]int{"syscalls_seen": total, "write_class_events": len(evs)}}
 	rel := func(p string) string {
 		if !filepath.IsAbs(p) {
@@ -307,7 +344,7 @@ func init() {
 	register(&core.Property{
 		ID:    "C15",
 		Level: "exploration",
-		Rule: "generated CRS trees (1..3 rules files, assembly files with includes/definitions/stored names, test files, setup example) with ~25 decoys (near-miss extensions and names such as 932100.ra.bak, 9321000.yaml, 920110 without extension, *.conf~, notes.example.txt, README files containing marker text, a sibling directory outside the root with rules/assembly/test files, and the same in the directory above the root, so that the root is nested in something that looks like another root; a third of the runs use a root directory named crs[12] next to directories crs1 and crs2 that hold files every command would rewrite) x 33 inspecting command lines (generate file/stdin/missing, compare single/--all/github, format --check single/--all/github, renumber-tests --check single/--all/github, version, completion for 4 shells, help, failing invocations, --check and single-target runs on missing targets and on decoys that only resemble a target) and 13 rewriting ones (format single/include/--all, format of an include file and of a rule file from a working directory that holds a file of the same name, update single/--all, the same with a backup copy of the rules file that matches the same glob and sorts in front of it, renumber-tests single/--all, update-copyright) x -d at the root or 1..2 levels below. Two thirds of the runs get the environment of a GitHub workflow (GITHUB_ACTIONS, GITHUB_STEP_SUMMARY / GITHUB_OUTPUT / GITHUB_ENV naming files inside the sandbox), half of those a temporary directory on another file system. Every run is traced with strace -f (file-related and attribute system calls). " +
+		Rule: "generated CRS trees (1..3 rules files, assembly files with includes/definitions/stored names, test files, setup example) with ~25 decoys (near-miss extensions and names such as 932100.ra.bak, 9321000.yaml, 920110 without extension, *.conf~, notes.example.txt, README files containing marker text, a sibling directory outside the root with rules/assembly/test files, and the same in the directory above the root, so that the root is nested in something that looks like another root; a third of the runs use a root directory named crs[12] next to directories crs1 and crs2 that hold files every command would rewrite) x 38 inspecting command lines (generate file/stdin/missing, compare single/--all/github, format --check single/--all/github, renumber-tests --check single/--all/github, version, completion for 4 shells, help, failing invocations, --check and single-target runs on missing targets and on decoys that only resemble a target, --check on a file that triggers the upper-case lint, update-copyright and renumber-tests with -d at a directory that lies in no root) and 13 rewriting ones (format single/include/--all, format of an include file and of a rule file from a working directory that holds a file of the same name, update single/--all, the same with a backup copy of the rules file that matches the same glob and sorts in front of it, renumber-tests single/--all, update-copyright) x -d at the root or 1..2 levels below. Two thirds of the runs get the environment of a GitHub workflow (GITHUB_ACTIONS, GITHUB_STEP_SUMMARY / GITHUB_OUTPUT / GITHUB_ENV naming files inside the sandbox), half of those a temporary directory on another file system. Every run is traced with strace -f (file-related and attribute system calls). " +
 			"Oracle: inspecting commands perform no successful write-class system call (open for writing/creating, unlink, rename, mkdir, chmod, truncate, link ...; /dev/null excepted) and leave the sandbox snapshot (root plus outside sibling) identical; rewriting commands change only paths allowed by a path model written from the statement, perform no write-class call outside the root or on a pre-existing non-target. Non-trivial = every traced run; distinct by (tree, command, -d).",
 		Cases: func(env *core.Env, rng *rand.Rand) []core.Case {
 			trees := env.N(10, 80)
